@@ -17,7 +17,7 @@ def asmOperand (mn operand : String) : Option (InstrRow × Operand) :=
     | .ok o => (match resolveOperand o row [] with | .ok o' => some (row, o') | .error _ => none)
     | .error _ => none
 
-/-- `(size, bytes)` of one source statement -/
+/-- `(size, bytes)` of one source statement: create, resolve (empty symbol table), translate, fit, emit -/
 def asmOne (mn operand : String) : Option (Nat × Bytes) :=
   match asmOperand mn operand with
   | some (row, o) => sizeAndBytes o row
@@ -31,52 +31,51 @@ def asmDecode (mn operand : String) : Option (Instr × Nat) :=
 
 theorem encodes_congr {o o' : Operand} {r : InstrRow} {x : Spec.MC6809.Operand}
     (h : translateOperand o r = translateOperand o' r) (he : Encodes o' r x) : Encodes o r x := by
-  obtain ⟨pkg, bytes, ht, hb, hl, hd⟩ := he
-  exact ⟨pkg, bytes, by rw [h]; exact ht, hb, hl, hd⟩
+  obtain ⟨pkg, bytes, ht, hnr, hb, hl, hd⟩ := he
+  obtain ⟨p', hf, hb'⟩ := fitPkg_of_emitted hb
+  exact ⟨pkg, bytes, by rw [h]; exact ht, hnr, emitted_of_fitPkg hf hb', hl, hd⟩
 
 theorem sizeAndBytes_ok {o : Operand} {r : InstrRow} {sz : Nat} {bytes : Bytes}
     (h : sizeAndBytes o r = some (sz, bytes)) :
-    ∃ pkg, translateOperand o r = .ok pkg ∧ pkg.size = sz ∧ pkgBytes pkg = some bytes := by
+    ∃ pkg p', translateOperand o r = .ok pkg ∧ pkg.size = sz ∧ fitPkg r pkg = .ok p' ∧ pkgBytes p' = some bytes := by
   unfold sizeAndBytes at h
   split at h
   · rename_i pkg ht
     simp only [Option.map_eq_some_iff, Prod.mk.injEq] at h
     obtain ⟨b, hb, h1, h2⟩ := h
-    exact ⟨pkg, ht, h1, by rw [hb, h2]⟩
+    obtain ⟨p', hf, hb'⟩ := fittedBytes_some hb
+    exact ⟨pkg, p', ht, h1, hf, by rw [hb', h2]⟩
   · exact absurd h (by simp)
+
+/-- `sizeAndBytes` determines what `Encodes` can say: the package and the bytes are these -/
+theorem encodes_bytes {o : Operand} {r : InstrRow} {sz : Nat} {bytes : Bytes} {x : Spec.MC6809.Operand}
+    (h : sizeAndBytes o r = some (sz, bytes)) (he : Encodes o r x) :
+    bytes.length = sz ∧ decode bytes = some (⟨opOf r.mnemonic, x⟩, bytes.length) := by
+  obtain ⟨pkg, p', ht, hsz, hf, hb⟩ := sizeAndBytes_ok h
+  obtain ⟨pkg', bytes', ht', _, hb', hl', hd'⟩ := he
+  rw [ht] at ht'
+  have hp : pkg = pkg' := by injection ht'
+  subst hp
+  obtain ⟨p'', hf', hb''⟩ := fitPkg_of_emitted hb'
+  rw [hf] at hf'
+  have : p' = p'' := by injection hf'
+  subst this
+  rw [hb] at hb''
+  have : bytes = bytes' := by injection hb''
+  subst this
+  exact ⟨by rw [hl', hsz], hd'⟩
 
 /-- if the bytes emitted for a package differ in number from its `size`, the operand is not encoded -/
 theorem not_encodes_of_size {o : Operand} {r : InstrRow} {sz : Nat} {bytes : Bytes}
     (h : sizeAndBytes o r = some (sz, bytes)) (hne : bytes.length ≠ sz) (x : Spec.MC6809.Operand) :
-    ¬ Encodes o r x := by
-  obtain ⟨pkg, ht, hsz, hb⟩ := sizeAndBytes_ok h
-  rintro ⟨pkg', bytes', ht', hb', hl', _⟩
-  rw [ht] at ht'
-  have hp : pkg = pkg' := by injection ht'
-  subst hp
-  have h1 := hb' { (default : Stmt) with pkg := pkg } rfl
-  rw [stmtBytes_eq_pkgBytes] at h1
-  simp only at h1
-  rw [hb] at h1
-  have : bytes = bytes' := by injection h1
-  subst this
-  exact hne (by rw [hl', hsz])
+    ¬ Encodes o r x := fun he => hne (encodes_bytes h he).1
 
 /-- if the emitted bytes decode to a different operand, the intended operand is not encoded -/
 theorem not_encodes_of_decode {o : Operand} {r : InstrRow} {sz : Nat} {bytes : Bytes} {ins : Instr} {n : Nat}
     (h : sizeAndBytes o r = some (sz, bytes)) (hd : decode bytes = some (ins, n)) (x : Spec.MC6809.Operand)
     (hx : ins.operand ≠ x) : ¬ Encodes o r x := by
-  obtain ⟨pkg, ht, hsz, hb⟩ := sizeAndBytes_ok h
-  rintro ⟨pkg', bytes', ht', hb', _, hd'⟩
-  rw [ht] at ht'
-  have hp : pkg = pkg' := by injection ht'
-  subst hp
-  have h1 := hb' { (default : Stmt) with pkg := pkg } rfl
-  rw [stmtBytes_eq_pkgBytes] at h1
-  simp only at h1
-  rw [hb] at h1
-  have : bytes = bytes' := by injection h1
-  subst this
+  intro he
+  have hd' := (encodes_bytes h he).2
   rw [hd] at hd'
   injection hd' with e
   have : ins.operand = x := by rw [Prod.mk.injEq] at e; rw [e.1]
